@@ -44,7 +44,7 @@ ASSUMPTIONS = [
 KINDS = ["return", "exit0", "exit3", "exit255", "exitstr", "connerr", "udsexc", "runtime", "kbd"]
 POINTS = ["setup-early", "setup", "main", "teardown"]
 CMDS = ["plain", "scanner", "uds"]
-HOOKS = ["none", "ok", "fail", "missing"]
+HOOKS = ["none", "ok", "fail", "missing", "signal"]
 
 
 DB_OPEN_FAILS = ("dir", "garbage", "schema")  # the path is a directory / not a database / a database of another schema version
@@ -153,6 +153,9 @@ def make_command(case: dict[str, Any], d: Path) -> Any:
             common[f"{v}_hook"] = f'env > "{d}/{v}.env"; echo out-{v}; exit 7'
         elif h == "missing":
             common[f"{v}_hook"] = str(d / "does-not-exist.sh")
+        elif h == "signal":
+            # the hook's shell is terminated by a signal (killed by a watchdog, segfault of a tool it calls)
+            common[f"{v}_hook"] = f'env > "{d}/{v}.env"; echo out-{v}; kill -TERM $$; sleep 5' 
 
     def markers(where: str) -> None:
         lg.info(f"marker {where} 1")
@@ -284,11 +287,22 @@ def run_case(case: dict[str, Any], d: Path) -> dict[str, Any]:
     glog = logging.getLogger("gallia")
     old_level = glog.level
     glog.setLevel(5)  # what setup_logging() does for a CLI run: records down to TRACE reach the file handler
+    reported: list[str] = []
+
+    class _Warn(logging.Handler):
+        def emit(self, record: logging.LogRecord) -> None:
+            if record.levelno >= logging.WARNING:
+                reported.append(record.getMessage())
+
+    wh = _Warn(0)
+    glog.addHandler(wh)
     try:
         asyncio.run(go())
     finally:
+        glog.removeHandler(wh)
         sys.argv = old_argv
         glog.setLevel(old_level)
+    res["reported"] = reported
     # A thread that is not a daemon and still alive keeps the interpreter from exiting: the process would never deliver its exit
     # code. (Threads get a moment to wind down; the leaked ones are stopped afterwards so that they cannot pile up here.)
     left = [t for t in threading.enumerate() if t not in before and not t.daemon and t is not threading.current_thread()]
@@ -314,7 +328,7 @@ def observe(case: dict[str, Any], d: Path, res: dict[str, Any]) -> dict[str, Any
     """Everything the property talks about, read back from disk."""
     from gallia.log import PenlogReader
 
-    obs: dict[str, Any] = {"rc": res.get("rc"), "escaped": res.get("escaped"), "threads_left": res.get("threads_left") or []}
+    obs: dict[str, Any] = {"rc": res.get("rc"), "escaped": res.get("escaped"), "threads_left": res.get("threads_left") or [], "reported": res.get("reported") or []}
     cmd = res.get("cmd")
     if case["artifacts"]:
         runs = sorted((d / "artifacts").glob("*/run-*"))
@@ -409,9 +423,9 @@ def check(case: dict[str, Any]) -> list[tuple[str, str]]:
     exp = expected_code(case)
     hook_state = "hooks-ok"
     if case["hooks_enabled"]:
-        if case["pre_hook"] in ("fail", "missing"):
+        if case["pre_hook"] in ("fail", "missing", "signal"):
             hook_state = "failing-pre-hook"
-        elif case["post_hook"] in ("fail", "missing"):
+        elif case["post_hook"] in ("fail", "missing", "signal"):
             hook_state = "failing-post-hook"
     where = "db-open" if case["db"] in DB_OPEN_FAILS else (f"{case['cmd']}/{case['point']}" if case["kind"] != "return" else case["cmd"])
     ctx = f"{case}"
@@ -470,7 +484,12 @@ def check(case: dict[str, Any]) -> list[tuple[str, str]]:
                 out.append((f"C15/db-run-meta-not-completed/{case['cmd']}", f"{ctx}: run_meta end_time={end_time} exit_code={code}, returned {obs['rc']}"))
     if case["hooks_enabled"]:
         for v in ("pre", "post"):
-            if case[f"{v}_hook"] in ("ok", "fail"):
+            # a hook that ran and failed - non-zero exit status or death by signal - is reported (warning or above naming the hook)
+            if case[f"{v}_hook"] in ("fail", "signal") and obs.get(f"{v}_env") is not None:
+                if not any(f"{v}-hook" in m for m in obs["reported"]):
+                    out.append((f"C15/failing-hook-not-reported/{v}/{case[f'{v}_hook']}", f"{ctx}: warnings and errors of the run: {obs['reported'][:4]}"))
+        for v in ("pre", "post"):
+            if case[f"{v}_hook"] in ("ok", "fail", "signal"):
                 env = obs.get(f"{v}_env")
                 if env is None:
                     if v == "post" or case["db"] not in DB_OPEN_FAILS:
@@ -510,7 +529,7 @@ def grid() -> list[dict[str, Any]]:
     out = []
     for cmd, kind, art, db, lock in itertools.product(CMDS, KINDS, [False, True], ["off", "on", "dir", "garbage", "schema"], [False, True]):
         for point in (POINTS if kind != "return" else ["main"]):
-            for he, pre, post in [(True, "none", "none"), (True, "ok", "ok"), (True, "fail", "ok"), (True, "ok", "fail"), (True, "missing", "missing"), (False, "ok", "fail")]:
+            for he, pre, post in [(True, "none", "none"), (True, "ok", "ok"), (True, "fail", "ok"), (True, "ok", "fail"), (True, "missing", "missing"), (False, "ok", "fail"), (True, "signal", "signal")]:
                 out.append({"cmd": cmd, "kind": kind, "point": point, "artifacts": art, "db": db, "lock": lock, "hooks_enabled": he, "pre_hook": pre, "post_hook": post,
                             "rich": {"pdu": "22f190", "service": 0x27, "ids": [1, 16, 255], "mask": 0x7F, "count": 300} if (len(out) % 3 == 0) else None,
                             "db_close": [None, "complete", "disconnect", "complete-ve", "disconnect-ve"][len(out) % 7 % 5] if db == "on" else None})
